@@ -18,3 +18,11 @@ Proof.
   apply committed_immutable; [exact Snd| |exact Hv].
   apply frun_inv; [exact Snd|]. apply finit_inv. exact Hr.
 Qed.
+
+(* collections (Model/GCHist.v): the retained-snapshot half of C05's history invariant -- PRESENCE of every file a retained
+   snapshot reaches; that the CONTENT is unchanged is Proofs/GCViewProofs.v *)
+Require DS.Model.GC DS.Model.GCHist DS.Proofs.GCHistProofs.
+Theorem hist_keeps_retained_present : forall ops : list DS.Model.GCHist.hop,
+  let h := DS.Model.GCHist.run_hist ops in
+  forall l, In l (DS.Model.GCHist.h_lists h) -> DS.Model.GCHist.snapshot_present (DS.Model.GCHist.h_store h) l.
+Proof. intros ops h. exact (proj2 (DS.Proofs.GCHistProofs.history_invariant ops)). Qed.
